@@ -873,6 +873,9 @@ func (s *Server) SetReplicationConfig(cfg config.ReplicationConfig) error {
 	}
 
 	if rule != nil {
+		// work on a copy: the served rule only changes when SetRule accepts the update
+		newRule := *rule
+		rule = &newRule
 		rule.Count = int(cfg.MaxReplicas)
 		rule.LocationLabels = cfg.LocationLabels
 		if err := s.GetRaftCluster().GetRuleManager().SetRule(rule); err != nil {
@@ -887,6 +890,7 @@ func (s *Server) SetReplicationConfig(cfg config.ReplicationConfig) error {
 		s.persistOptions.SetReplicationConfig(old)
 		if rule != nil {
 			rule.Count = int(old.MaxReplicas)
+			rule.LocationLabels = old.LocationLabels
 			if e := s.GetRaftCluster().GetRuleManager().SetRule(rule); e != nil {
 				log.Error("failed to roll back count of rule when update replication config", errs.ZapError(e))
 			}
